@@ -5,6 +5,7 @@ CONSTANTS
   MSet = {0, 1}
   Fine = TRUE
   WithFol = TRUE
+  NRaw = 1
   Mode = "raw"
   NEnc = 1
   BUG_NegLen = FALSE
